@@ -292,7 +292,8 @@ def units(tier, seed):
     out.extend(c13_obs.units(tier, seed))
     UNCOVERED[:] = common.uncovered_report(e1.binary_classes(), classes) + \
         ['as_json/as_markdown (C14 territory) and hassh/fingerprints observers are not under contract here']
-    return out
+    from checks import foundation
+    return list(out) + foundation.units(tier, seed)
 
 
 FINDING_REPLAYS = dict(regions.finding_replays('C13'))
